@@ -287,7 +287,7 @@ def rel(loc):
 def lexer_impl_to_spec(tier, ev, verd, stats):
     """I->S: token streams of the real lexer on seeded random concrete strings, validated by TLC."""
     rng = random.Random(vlib.seed() * 17 + 606)
-    nruns = 4000 if tier == "quick" else 40000
+    nruns = 4000 if tier == "quick" else 20000
     chars = sorted(CLASS_OF)
     # concrete fragments the random strings are sprinkled with (every character is in the class table)
     frags = ["1.5.9.1", "0xaF", "AS15", "::1", "a:B:c", "1.5e-9", "1_5", "5.q", "1..", 'f"', '"é\\""', "'中' ",
@@ -589,6 +589,7 @@ def ill_groups():
     g.append(("stmts_ret", ["fn f() -> i32? { %s Option.None }" % b for b in body]))
     # 6 items
     g.append(("items", [
+        "const A: u32 = 1 / 0;", "const A: i32 = 1 % 0;", "const Z: i32 = 0;\nconst A: i32 = 7 / Z;", "const A: u8 = 255 + 1;",
         "const A: i32 = A;", "const A: i32 = B;\nconst B: i32 = A;", "const A: i32 = f();\nfn f() -> i32 { A }",
         "const A: i32 = f();\nfn f() -> i32 { g() }\nfn g() -> i32 { A }", "const A: List[i32] = [A];", "const A: i32 = true;",
         "const A: Nope = 1;", "const A: i32 = 1;\nconst A: i32 = 2;", "const A: i32 = 1;\nfn A() {}", "const A: i32 = return 1;",
